@@ -213,6 +213,29 @@ def body_subject(subj: str, maildir: bool) -> bool:
     return True
 
 
+TITLES = ["a b c d e f g h i\nj k", "one\r\ntwo", "t\tu  v\n\n\nw x y z 1 2 3 4 5\r6", " lead", "a&amp;b\nc", "x" + " y" * 12 + "\n+ADMIN:\n Admin: forged"]
+
+
+def body_title(ti: int, sep: int) -> bool:
+    """HTML titles become entry names: no CR/LF/TAB survives, however many whitespace runs there are."""
+    from pygopherd.handlers import html as htmlmod
+    from vk import memvfs as mv
+
+    cfg = dl.config()
+    t = TITLES[ti]
+    lines = ("<html><head><title>" + t + "</title></head><body>x</body></html>\n")
+    data = lines.encode() if sep == 0 else lines.replace("\n", "\r\n").encode()
+    vfs = mv.MemVFS(cfg, {"/p.html": mv.File(data)})
+    h = htmlmod.HTMLFileTitleHandler("/p.html", "", None, cfg, vfs.stat("/p.html"), vfs)
+    hx.require(bool(h.canhandlerequest()), "C13:html-title-handler-not-chosen", "")
+    e = h.getentry()
+    hx.reach()
+    name = e.getname()
+    for ch in name:
+        hx.require(ch not in "\r\n\t", "C13:control-character-in-entry-name", lambda: "title=%r name=%r" % (t, name))
+    return True
+
+
 def obligations(tier, seed):
     obs = []
     n = 2 if tier == "quick" else 3
@@ -230,12 +253,15 @@ def obligations(tier, seed):
                           functions=["renderdirstart/renderdirend/filenotfound"]))
     for slash in (False, True):
         obs.append(Ob(id="C13.1-urlpage[%s]" % ("/URL:" if slash else "URL:"), body="harness.C13:body_urlpage", sig="slash: bool, p: str",
-                      pre=["slash == %s" % slash, "len(p) <= %d" % n, "all(c in '<>&' + chr(39) + 'a' for c in p)"], timeout=300 if tier == "quick" else 1200,
+                      pre=["slash == %s" % slash, "len(p) <= 3", "all(c in '<>&' + chr(39) + 'a%3C' for c in p)"], timeout=400 if tier == "quick" else 1200,
                       desc="HTMLURLHandler.write for a URL: selector (which the handler's own filter lets contain < > & '): skeleton unchanged",
-                      bounds="|payload| <= %d over {< > & ' a}" % n, functions=["handlers.url.HTMLURLHandler.write"]))
+                      bounds="|payload| <= 3 over {< > & ' a % 3 C}", functions=["handlers.url.HTMLURLHandler.write"]))
     obs.append(Ob(id="C13.1-waptext", body="harness.C13:body_waptext", sig="l1: str, l2: str", pre=["len(l1) <= 2", "len(l2) <= %d" % (0 if tier == "quick" else 2), "all(c in '<>&' + chr(34) + ' a' for c in l1 + l2)"],
                   timeout=300 if tier == "quick" else 1200, desc="WAP text-to-WML conversion of two symbolic lines: no payload-controlled markup",
                   bounds="2 lines, |l| <= 2 over {< > & \" SPACE a}", functions=["protocols.wap.WAPProtocol.handlerwrite"]))
+    obs.append(Ob(id="C13.5b-html-title", body="harness.C13:body_title", sig="ti: int, sep: int", pre=["0 <= ti < %d" % len(TITLES), "0 <= sep <= 1"], timeout=300,
+                  desc="HTML <title> text used as an entry name contains no CR/LF/TAB, for titles with few and with many whitespace runs (which would forge Gopher+ block headers / menu lines)",
+                  bounds="%d titles x LF/CRLF files (symbolic index = solver-driven enumeration)" % len(TITLES), functions=["handlers.html.HTMLFileTitleHandler.getentry"]))
     obs.append(Ob(id="C13.5-subject", body="harness.C13:body_subject", sig="subj: str, maildir: bool", pre=["len(subj) <= %d" % (3 if tier == "quick" else 4), "all(c in 'a ' + chr(9) + chr(10) + chr(13) for c in subj)"],
                   timeout=300, desc="mail subjects used as entry names contain no CR/LF/TAB (they would break menu lines) and are never empty",
                   bounds="|subject| <= %d over {a SPACE TAB LF CR}" % (3 if tier == "quick" else 4), functions=["handlers.mbox.MessageHandler.getentry"]))
